@@ -1071,7 +1071,26 @@ fn parent_main<E: Engine>(args: &Args) -> i32 {
                 eprintln!("harness error: cannot spawn corpus replay");
                 return 2;
             };
-            let pid_out = child.wait_with_output();
+            // watched: the code under test may block for good in a replay as in any other run
+            let pid = child.id() as i32;
+            let (txo, rxo) = std::sync::mpsc::channel();
+            std::thread::spawn(move || {
+                let _ = txo.send(child.wait_with_output());
+            });
+            let pid_out = match rxo.recv_timeout(Duration::from_secs(60)) {
+                Ok(o) => o,
+                Err(_) => {
+                    // SAFETY: plain kill(2) on the child we spawned.
+                    unsafe {
+                        libc::kill(pid, libc::SIGKILL);
+                    }
+                    let _ = rxo.recv_timeout(Duration::from_secs(5));
+                    let rf: ReplayFile = serde_json::from_slice(&fs::read(&f).unwrap()).expect("corpus file");
+                    let v = Violation::new("hang", format!("the replay of corpus file {} did not end within 60 s", f.display()));
+                    found.push(FoundViolation { seed: rf.seed, kind: "corpus".into(), violation: v, config: rf.config, actions: rf.actions.unwrap_or_default() });
+                    continue;
+                }
+            };
             match pid_out {
                 Ok(o) if o.status.code() == Some(0) => {}
                 Ok(o) if o.status.code() == Some(1) => {
